@@ -80,8 +80,14 @@ def run(ctx):
             continue
         mk, mv = model_sy(ctx, p, cdf, xs)
         rel = lambda a, b: abs(a - b) <= 1e-10 * max(1.0, abs(b))  # noqa
+        if len(got_knots) != 201 or len(got_vals) != len(xs):
+            ctx.violation("impl-violation", "c16Holds", {"input": {"specific_yield": p}, "impl": [len(got_knots), len(got_vals)], "oracle": {
+                "name": "c16Holds", "result": False,
+                "witness": {"why": "the profile is not tabulated on the 201 levels -995 ... 1005 mm (or values are missing)",
+                            "knots": len(got_knots), "values": len(got_vals), "levels_asked": len(xs)}}})
+            continue
         ok_k = len(mk) == 201 and all(rel(a[0], b[0]) and rel(a[1], b[1]) for a, b in zip(got_knots, mk))
-        ok_v = all(rel(a, b) for a, b in zip(got_vals, mv))
+        ok_v = len(got_vals) == len(mv) and all(rel(a, b) for a, b in zip(got_vals, mv))
         mid = all(abs(k[0] - (-995.0 + 10 * i)) < 1e-9 for i, k in enumerate(got_knots))
         flat = got_vals[0] == got_knots[0][1] and got_vals[6] == got_knots[-1][1]
         ctx.obligation(ob_sy, ok_k and ok_v)
@@ -111,7 +117,12 @@ def run(ctx):
         {"Ksmacz0": 10 ** rng.uniform(-4, 5), "alpha": rng.uniform(1.05, 20.0), "zeta_max_cm": rng.choice([1.0, 0.0, 5.0, rng.uniform(-5, 20)])}
         for _ in range(n * 3)]
     for p in tsets:
-        T = tm.PeatclsmTransmissivity(**p)
+        try:
+            T = tm.PeatclsmTransmissivity(**p)
+        except Exception as e:  # noqa
+            ctx.violation("impl-violation", "c16Holds", {"input": {"transmissivity": p}, "impl": repr(e)[:200], "oracle": {
+                "name": "c16Holds", "result": False, "witness": {"why": "the transmissivity cannot be constructed", "exception": repr(e)[:200]}}})
+            continue
         zmax_mm = p["zeta_max_cm"] * 10
         zs = [zmax_mm - 1500.0, zmax_mm - 10.0, zmax_mm - 1e-6, zmax_mm, float(np.nextafter(zmax_mm, np.inf)), zmax_mm + 0.5,
               zmax_mm + 1000.0] + [rng.uniform(zmax_mm - 1500, zmax_mm + 50) for _ in range(8)]
